@@ -10,6 +10,7 @@ def main(tier):
     footprint.alias_wrappers(P, rep)
     dep.alias_callers(P, rep)
     footprint.alias_sites(P, rep)
+    rep.attempt(footprint.alias_shift_shape, P, rep)
     footprint.ridge_alias_twins(P, rep)
     footprint.bezier_periodic_start(P, rep)
     kernels.point_kernels(P, rep)
